@@ -1,12 +1,12 @@
 CONSTANTS
   GenIds = {1}
   MaxFrames = 3
-  MaxStack = 8
+  MaxStack = 7
   MaxRust = 3
   MaxTmp = 2
-  ArgcSet = {0, 1}
+  ArgcSet = {0}
   RegSet = {1}
-  EvalKinds = {"eval", "evalasync"}
+  EvalKinds = {"eval"}
   CallKinds = {"call", "construct"}
   WithModule = TRUE
 INIT Init
